@@ -265,8 +265,10 @@ func refSignedData(sig *dns.RRSIG, rrset []dns.RR) ([]byte, error) {
 		target = "*." + owner[idx[labels-int(sig.Labels)]:]
 	}
 	// Sign() treats any owner whose text starts with '*' as a wildcard and
-	// decrements Labels; that is only right when the first label is "*".
-	if strings.HasPrefix(target, "*") && !strings.HasPrefix(target, "*.") {
+	// decrements Labels; that is only right when the first label is "*". And
+	// for the root wildcard "*." that decrement makes the signer build "*..",
+	// which Verify (given Labels=1) would not.
+	if strings.HasPrefix(target, "*") && (!strings.HasPrefix(target, "*.") || target == "*.") {
 		return nil, errRefUnavailable
 	}
 	cp := make([]dns.RR, len(rrset))
